@@ -276,6 +276,8 @@ CommitStep(e) ==
         c08 == If(h \in Handlers /\ Interaction(Kind(h)) /\ pend[h].on /\ \E u \in pend[h].us : pend[h].vers[u] # ver[u],
                   V("C08", l, "FreshAtCommit: committed candidate was computed from a trajectory that is no longer current"))
                \cup If(h \in Handlers /\ ~pend[h].on, V("C08", l, "commit of a handler without pending candidate"))
+               \cup If(h \in Handlers /\ Interaction(Kind(h)) /\ "c08" \in DOMAIN e /\ \E r \in Range(e.c08) : r[2] = 0 \/ r[3] > 1,
+                       V("C08", l, "SameTrajectory: a unit of the in-state from which the committed candidate was computed has another velocity, or is off the straight line it was on (2^-30 L), in the global state"))
         c07 == If(t # NoTime /\ TFinite(commitT) /\ TKLt(t, commitT), V("C07", l, "TimesMonotone: committed event time decreases"))
                \cup If(\E u \in Units : before[u][2] = 0 /\ after[u][2] = 0 /\ before[u][1] # after[u][1],
                        V("C07", l, "InactiveFixed: a unit without velocity changed its position"))
